@@ -6,6 +6,7 @@ CONSTANTS
   Elem = {"e"}
   AsBuilt = {}
   Kinds = {"lww", "hash"}
+  CausalModes = {FALSE}
   MaxSteps = 5
   MinSteps = 2
 VIEW View
